@@ -90,10 +90,28 @@ def run_job(job):
                 return K.coef_to_G(v)
 
             def encmv(mv, ring):
-                return {'keys': [int(k) for k in mv.keys()], 'coefs': [toG(v).to_json(ring) for v in mv.values()]}
+                cs = [toG(v) for v in mv.values()]
+                if ring == 'rat' and cs and all(set(c.d) == {()} for c in cs):
+                    # numeric denominators: one common denominator per multivector, so that TLC adds numerators
+                    # instead of multiplying denominators up (32-bit integers)
+                    from math import lcm
+                    D = lcm(*[c.d[()] for c in cs])
+                    return {'keys': [int(k) for k in mv.keys()],
+                            'coefs': [{'n': K.G._pjson({m: v * (D // c.d[()]) for m, v in c.n.items()}), 'd': [[D, []]]} for c in cs]}
+                return {'keys': [int(k) for k in mv.keys()], 'coefs': [c.to_json(ring) for c in cs]}
             allG = [toG(v) for mv in ops_sym + ([rs] if rs is not None else []) for v in mv.values()]
             if any(g.max_abs() >= K.INT_LIMIT for g in allG):
                 raise K.EncodeError('integer too large')
+            # TLC integers are 32-bit: bound the intermediates of the symbolic verdict and of the evaluation at sigma
+            K._magnitude_guard_G(op, params, [[toG(v) for v in mv.values()] for mv in ops_sym + ([rs] if rs is not None else [])], len(ops_sym))
+            if rs is not None:
+                smax = max([max(abs(Fraction(v).numerator), Fraction(v).denominator) for v in sigma.values()] or [1])
+                for v in rs.values():
+                    g = toG(v)
+                    bn = sum(abs(c) * smax ** (2 * len(m)) for m, c in g.n.items())
+                    bd = sum(abs(c) * smax ** (2 * len(m)) for m, c in g.d.items())
+                    if bn * bd >= 2 ** 30 or (bn * bd) * 10 ** 4 >= 2 ** 31 and max(bn, bd) > 2 ** 12:
+                        raise K.EncodeError('evaluation at sigma may exceed 32 bits in TLC')
             ring = 'poly' if all(g.is_poly() for g in allG) else 'rat'
             evals = []
             if rs is not None:
